@@ -274,6 +274,8 @@ fn run_gen(input: &Value) -> Case {
             format!("gen.tokens={}", ntok.min(8)),
             format!("gen.item={} raw={}", has_item, has_raw),
             format!("gen.parts={}", parts.len().min(20)),
+            format!("gen.emptyreads={}", parts.iter().any(|p| p.contains(&0))),
+            format!("gen.rejects={}", rejects.iter().any(|r| *r)),
         ],
         nontrivial: has_item && parts.iter().any(|p| p.len() >= 2) && data.len() >= 2,
     }
@@ -407,6 +409,21 @@ fn prod_run(which: usize, data: &[u8], cuts: &[usize], names: &mut Interner) -> 
     })
 }
 
+/// how far the reader ran ahead of the first event's bytes (bytes that had to be re-scheduled)
+fn lookahead_tag(steps: &Option<Vec<usize>>, first: &[ITok]) -> &'static str {
+    let Some(steps) = steps else { return "?" };
+    let (Some(p), Some(t)) = (steps.first(), first.first()) else { return "none" };
+    let len = match t {
+        ITok::Rw(b) => b.len(),
+        ITok::It(..) => return if steps.windows(2).any(|w| w[0] == w[1]) { "resched" } else { "item" },
+    };
+    match p.saturating_sub(len) {
+        0 => "0",
+        1 => "1",
+        _ => ">1",
+    }
+}
+
 fn run_prod(input: &Value) -> Case {
     let which = input["which"].as_u64().unwrap_or(0) as usize;
     let data = vbytes(&input["input"]);
@@ -453,6 +470,8 @@ fn run_prod(input: &Value) -> Case {
             format!("prod.item={} raw={}", has_item, has_raw),
             format!("prod.parts={}", match parts.len() { 0..=4 => "<=4", 5..=20 => "5-20", _ => ">20" }),
             format!("prod.len={}", (data.len() / 8) * 8),
+            format!("prod.emptyreads={}", parts.iter().any(|p| p.contains(&0))),
+            format!("prod.lookahead={}", lookahead_tag(&steps, &first)),
         ],
         nontrivial: esc && multi && has_item && parts.iter().any(|p| p.len() >= 2),
     }
@@ -553,11 +572,53 @@ fn all_cuts(n: usize, pairs: bool) -> Vec<Vec<usize>> {
     out
 }
 
+/// every way of cutting n bytes into non-empty reads (2^(n-1)), plus partitions with empty reads
+fn all_splits(n: usize) -> Vec<Vec<usize>> {
+    if n == 0 {
+        return vec![vec![0], vec![0, 0]];
+    }
+    let mut out = vec![];
+    for mask in 0..(1u32 << (n - 1)) {
+        let mut p = vec![];
+        let mut run = 1;
+        for i in 0..n - 1 {
+            if mask & (1 << i) != 0 {
+                p.push(run);
+                run = 1;
+            } else {
+                run += 1;
+            }
+        }
+        p.push(run);
+        out.push(p);
+    }
+    out.extend(with_empty_reads(n));
+    out
+}
+
+/// partitions that contain empty reads at the start, in the middle and at the end
+fn with_empty_reads(n: usize) -> Vec<Vec<usize>> {
+    let mut out = vec![vec![0, n], vec![n, 0], vec![0, 0, n, 0]];
+    if n >= 2 {
+        out.push(vec![1, 0, n - 1]);
+        out.push(vec![n - 1, 0, 0, 1]);
+        let mut p = vec![];
+        for _ in 0..n {
+            p.push(1);
+            p.push(0);
+        }
+        out.push(p);
+    }
+    out
+}
+
 fn some_parts(rng: &mut Rng, n: usize) -> Vec<Vec<usize>> {
     let mut out = vec![trivial(n), bytewise(n)];
     for _ in 0..3 {
         out.push(random_partition(rng, n));
     }
+    let e = with_empty_reads(n);
+    out.push(e[rng.below(e.len() as u64) as usize].clone());
     out
 }
 
@@ -625,7 +686,7 @@ fn piece(rng: &mut Rng, which: usize) -> Vec<u8> {
             }
         }
     }
-    match rng.below(22) {
+    match rng.below(23) {
         0..=2 => s.extend_from_slice(KEYS[rng.below(KEYS.len() as u64) as usize]),
         3 => s.extend(format!("\x1b[{};{}R", num(rng), num(rng)).into_bytes()),
         4 => s.extend(format!("\x1b[<{};{};{}{}", rng.below(100), num(rng), num(rng), if rng.chance(1, 2) { 'M' } else { 'm' }).into_bytes()),
@@ -668,6 +729,13 @@ fn piece(rng: &mut Rng, which: usize) -> Vec<u8> {
                     s.extend(c);
                 }
             }
+        }
+        21 => {
+            // nested rescheduling: live prefixes inside the bytes pushed back by a failed longer candidate
+            for _ in 0..2 + rng.below(3) {
+                s.extend_from_slice([&b"\x1b[1;"[..], &b"\x1b["[..], &b"\x1b"[..], &b"\x1b[<1;"[..], &b"\x1b[?1"[..], &b"\x1bO"[..], &b"\xe2\x82"[..], &b"\x1b[8;1;1t\x1b[4"[..]][rng.below(8) as usize]);
+            }
+            s.push(*rng.pick(&[b'x', 0x1b, b'~', 0x80]));
         }
         _ => s.push(if rng.chance(1, 2) { rng.byte() } else { 0x80 + rng.below(0x80) as u8 }),
     }
@@ -740,11 +808,11 @@ fn gen_case(rng: &mut Rng) -> Value {
     let items: Vec<bool> = (0..np).map(|_| rng.chance(1, 3)).collect();
     let rejects: Vec<bool> = items.iter().map(|it| !*it && rng.chance(1, 4)).collect();
     let mut data = vec![];
-    let pieces = rng.below(6);
+    let pieces = 1 + rng.below(7);
     for _ in 0..pieces {
-        match rng.below(6) {
+        match rng.below(8) {
             0 => data.push(*rng.pick(&ALPHA)),
-            1 => data.push(100), // outside the alphabet
+            1 => data.push(*rng.pick(&[100u8, 0, 255, 65])), // outside the alphabet
             _ => {
                 let p = &pats[rng.below(np as u64) as usize];
                 let mut w = vec![];
@@ -757,9 +825,9 @@ fn gen_case(rng: &mut Rng) -> Value {
             }
         }
     }
-    data.truncate(24);
+    data.truncate(40);
     let n = data.len();
-    let parts = if n <= 9 && rng.chance(1, 3) { all_cuts(n, n <= 7) } else { some_parts(rng, n) };
+    let parts = if n <= 8 && rng.chance(1, 2) { all_splits(n) } else if n <= 14 && rng.chance(1, 3) { all_cuts(n, true) } else { some_parts(rng, n) };
     json!({"kind":"gen","pats":pats,"items":items,"rejects":rejects,"input":jbytes(&data),"parts":parts})
 }
 
@@ -786,10 +854,9 @@ pub fn generate(rng: &mut Rng, n: usize, tier: &str) -> Vec<Value> {
             8..=10 => {
                 // exhaustive cuts of a short stream
                 let which = if rng.chance(1, 4) { 1 } else { 0 };
-                let max = if thorough { 14 } else { 12 };
-                let s = stream(rng, which, max);
-                let pairs = s.len() <= if thorough { 14 } else { 10 };
-                v.push(json!({"kind":"prod","which":which,"input":jbytes(&s),"parts":all_cuts(s.len(), pairs)}));
+                let s = stream(rng, which, 14);
+                let parts = if s.len() <= 9 { all_splits(s.len()) } else { all_cuts(s.len(), true) };
+                v.push(json!({"kind":"prod","which":which,"input":jbytes(&s),"parts":parts}));
             }
             11..=17 => {
                 let which = if rng.chance(1, 4) { 1 } else { 0 };
